@@ -271,7 +271,14 @@ def check_aliasing(acc: Acc, ctx: Ctx, r: int) -> None:
     acc.case(("alias", a, ctx.impl_name, ctx.aggr_name, r, 4), nontrivial=True)
     if not same_points(points(agg), first):
         acc.violate("midpoints-shared", {}, case, first, points(agg), "modifying an array returned by Op.midpoints changed later defuzzifications")
-    acc.cls("aliasing_scenarios", 4)
+    # (5) the very same Activated object listed twice counts twice (as two equal objects do)
+    twice = fl.Aggregated("o", a, b, ctx.aggr, [acts[0], acts[1], acts[0]])
+    equal = fl.Aggregated("o", a, b, ctx.aggr, [acts[0], acts[1], fl.Activated(ctx.terms[0], 0.5, ctx.impl)])
+    acc.case(("alias", a, ctx.impl_name, ctx.aggr_name, r, 5), nontrivial=True)
+    if not same_points(points(twice), points(equal)):
+        acc.violate("repeated-object-dropped", {}, case, points(equal), points(twice),
+                    "a set listing the same Activated object twice defuzzifies differently from the set with two equal objects")
+    acc.cls("aliasing_scenarios", 5)
 
 
 def run_shard(tier: str, seed: int, shard):
